@@ -129,6 +129,19 @@ pub fn emphasised(seed: u64, idx: usize) -> (Vec<u8>, &'static str) {
             _ => (format!("\"\u{71d}\" = \"{}\"\n", "\u{71d}".repeat(d)).into_bytes(), "text_reading_as_deep_msgpack"),
         };
     }
+    if idx % 50 == 45 {
+        // valid YAML / TOML text whose first bytes ARE a complete MessagePack value: a first character U+0700..U+073F
+        // (0xDC 0x80..0xBF = "array 16" and the high byte of its count) followed by more ASCII bytes - each a
+        // one-byte integer - than the count says; U+0780..U+07BF (0xDE ..) the same for "map 16"
+        let c = char::from_u32(*rng.pick(&[0x700u32, 0x710, 0x73f, 0x780, 0x7a6, 0x7bf])).unwrap();
+        let lines = *rng.pick(&[9000usize, 14000, 30000]);
+        let mut t = if rng.chance(1, 2) { format!("{c}: 1\n") } else { format!("\"{c}\" = 1\n") };
+        let toml = t.starts_with('"');
+        for i in 0..lines {
+            t.push_str(&if toml { format!("k{i} = 1\n") } else { format!("k{i}: 1\n") });
+        }
+        return (t.into_bytes(), "text_whose_first_bytes_are_a_complete_msgpack_value");
+    }
     if idx % 50 == 47 || idx % 50 == 46 {
         // a UTF-8 byte order mark (or another invisible first character) in front of a document of each format
         let mut feats = crate::spell::Feats::default();
@@ -508,7 +521,7 @@ pub fn run(ctx: &Ctx) -> i32 {
         acc.merge(e_acc);
     }
     handle_programs(ctx, &mut acc);
-    let rule = format!("(a,b) {} mixed corpus inputs + {} inputs aimed at the detection trials (MessagePack collection markers followed by every kind of truncation, text starting with U+0700-U+07FF and other two-byte characters, inputs several formats accept, truncated seeds, JSON / YAML / TOML behind 1000..70001 bytes of white space, documents of each format behind a UTF-8 byte order mark or another invisible character, TOML documents of 1 000 000, 2 050 000 and just under 2 MiB bytes), each as a slice and under 4 read schedules, rotating target; (e) 30 inputs that several formats accept x a translator warmed up with a detected input of each format (and pairs of them) x 3 targets x slice/reader: verdict and output as on a fresh translator; (d) EVERY program of up to {} tokens over {{new borrow, read(n), prefix(n) : n in 0..=len+1}} x every data size 0..=6 x EVERY chunking of the source x both ways of taking ownership, plus the same programs on slice handles; distinct non-trivial = distinct inputs plus distinct programs of >= 2 tokens on >= 2 bytes", n_mixed, n_emph, if ctx.thorough() { 5 } else { 3 });
+    let rule = format!("(a,b) {} mixed corpus inputs + {} inputs aimed at the detection trials (MessagePack collection markers followed by every kind of truncation, text starting with U+0700-U+07FF and other two-byte characters, inputs several formats accept, truncated seeds, JSON / YAML / TOML behind 1000..70001 bytes of white space, documents of each format behind a UTF-8 byte order mark or another invisible character, YAML / TOML text whose first bytes are a complete MessagePack array 16 / map 16, TOML documents of 1 000 000, 2 050 000 and just under 2 MiB bytes), each as a slice and under 4 read schedules, rotating target; (e) 30 inputs that several formats accept x a translator warmed up with a detected input of each format (and pairs of them) x 3 targets x slice/reader: verdict and output as on a fresh translator; (d) EVERY program of up to {} tokens over {{new borrow, read(n), prefix(n) : n in 0..=len+1}} x every data size 0..=6 x EVERY chunking of the source x both ways of taking ownership, plus the same programs on slice handles; distinct non-trivial = distinct inputs plus distinct programs of >= 2 tokens on >= 2 bytes", n_mixed, n_emph, if ctx.thorough() { 5 } else { 3 });
     let mut extra = serde_json::Map::new();
     extra.insert("handle_programs_exhaustive_up_to_tokens".into(), json!(if ctx.thorough() { 5 } else { 3 }));
     ev::finish(
